@@ -29,6 +29,8 @@ var alphabet = []string{
 	"@{exec_path} += /opt/q",
 	"@{exec_path} = /bin/e @{a}/e",
 	"@{exec_path} = @{a}/e@{b}",
+	"@{ab} = /p /q",
+	"@{a} = @{ab}/k",
 	"@{s} = @{s}/x",
 	"@{u} = @{undef}",
 	"@{a} = /second",
